@@ -77,6 +77,28 @@ def s_odd_fast(tier):
     return coding.coding_cases(tier, fast=True, message=odd_messages(min(bounds["max_len"], 257)))
 
 
+LONG_GRAPHS = [
+    [0, 9, 9, 0, 6, 0, 0, 6, 6, 0, 0, 6, 0, 9, 9, 0],          # GC-balanced order 2: every vertex has out-degree 2
+    [3, 6, 9, 12, 3, 5, 10, 12, 3, 6, 9, 12, 5, 6, 9, 10],     # out-degree 2 everywhere, other arcs
+    [15, 6, 9, 15, 3, 15, 12, 7, 15, 10, 5, 15, 14, 15, 11, 13],  # mixed out-degrees 2, 3, 4
+    [1, 6, 2, 12, 3, 4, 10, 8, 3, 2, 9, 4, 5, 6, 8, 10],       # many out-degree-1 vertices
+]
+
+
+def long_case(i, tier):
+    import random as _random
+    rng = _random.Random(7100 + i)
+    width = [1100, 1500, 2000, 2400, 1300, 1800, 2200, 2600][i % 8] + (0 if tier == "quick" else 400 * (i // 8))
+    rows = LONG_GRAPHS[i % 4]
+    fast = i % 8 >= 6 and all(bin(r).count("1") != 3 for r in rows)
+    case = {"graph": {"k": 2, "rows": rows, "start": [1, 0, 0, 1][i % 4]},
+            "bits": format(rng.getrandbits(width) | (1 << (width - 1)), "b"),
+            "table": None if i % 2 else [rng.randrange(24) for _ in range(16)], "fast": fast, "vt": [0, 0, 6][i % 3]}
+    if i % 5 == 0:
+        case["verbose"] = True
+    return case
+
+
 SUBCHECKS = [
     SubCheck("normal", evaluate, strategy=s_normal, examples=(3000, 16000), shards=(8, 16),
              floors={"deg3_met": 60, "deg1_met": 60, "table_at_deg2or3": 60}, rule=RULE),
@@ -88,6 +110,10 @@ SUBCHECKS = [
              floors={"zero_message": 200, "empty_strand": 200}, rule=RULE),
     SubCheck("odd_fast", evaluate, strategy=s_odd_fast, examples=(1000, 6000), shards=(4, 16),
              floors={"odd_length": 300, "deg4_met": 30}, rule=RULE),
+    SubCheck("long_messages", evaluate, enum=(lambda tier: 8 if tier == "quick" else 32, long_case), shards=(8, 16),
+             exhaustive_space="fixed family of 1,100..2,600-bit (thorough ..3,800) messages on four order-2 graphs "
+                              "(about 1,000..2,600 informative steps; exercises depth- and length-dependent code)",
+             rule=RULE, timeout=600.0),
 ]
 
 TECHNIQUE = "property-based testing (Hypothesis): encode/decode round trip over constructed well-formed coding graphs"
